@@ -250,7 +250,15 @@ pub fn main(args: &Args) -> i32 {
         }
     }
     let cases = if args.cases > 0 { args.cases } else if args.thorough() { 80000 } else { 8000 };
-    let res = drive(&conflict_defs(), cases, args.seed ^ 0xC08, 600, &mut run, |def, run| check(def, run));
+    let mut res = drive(&conflict_defs(), cases, args.seed ^ 0xC08, 600, &mut run, |def, run| check(def, run));
+    if matches!(res, DriveResult::Pass) {
+        // wide definitions: many patterns matching in the same state
+        run.frozen = false;
+        res = drive(&model::gen::wide_conflict_defs(), cases / 8, args.seed ^ 0xC08B, 600, &mut run, |def, run| {
+            run.count("wide_defs", 1);
+            check(def, run)
+        });
+    }
     let code = match res {
         DriveResult::Pass => 0,
         DriveResult::Fail(def) => {
